@@ -323,6 +323,13 @@ func ownLevelOrder(c *Ctx, t *tables, a *parserAnchors, f *ssa.Function, curFn *
 			if _, ok := isFieldLoad(call.Call.Value, t.pt.exprFld); ok {
 				sub = call
 			}
+			// the operand step as a helper: advance and sub-parse in one call, the level evaluated before it
+			if sh := c.stepHelper(t, call.Call.StaticCallee()); sh != nil {
+				if adv == nil {
+					adv = call
+				}
+				sub = call
+			}
 		}
 	})
 	if lvlCall == nil || adv == nil || sub == nil {
@@ -501,6 +508,44 @@ func ruleRestrictedProductions(c *Ctx, t *tables, a *parserAnchors) {
 					guarded = true
 				}
 			}
+		}
+		if !guarded {
+			// path by path (the test may sit in a predicate): on every path that parses the value, "the next token is on
+			// the same line" was established before the first token advance
+			okAll, n := true, 0
+			complete := a.enumPaths(f.Blocks[0], func(facts []pathFact, blocks []*ssa.BasicBlock, last *ssa.BasicBlock) {
+				at := -1
+				firstAdv := len(blocks)
+				for i, b := range blocks {
+					if b == src.Block() && at < 0 {
+						at = i
+					}
+					for _, call := range callsIn(b) {
+						if call.Call.StaticCallee() == a.nextTok && i < firstAdv {
+							firstAdv = i
+						}
+					}
+				}
+				if at < 0 {
+					return
+				}
+				n++
+				found := false
+				for _, pf := range facts {
+					if pf.at.kind != atPeekNewline || !pf.at.neg {
+						continue
+					}
+					for i, b := range blocks {
+						if b == pf.from && i <= firstAdv && i <= at {
+							found = true
+						}
+					}
+				}
+				if !found {
+					okAll = false
+				}
+			})
+			guarded = complete && okAll && n > 0
 		}
 		c.check(guarded, fnName(f)+": no value after a line break", src.Pos(), "the value is parsed only when the next token is on the same line", "`return` followed by a line break still parses the next line as its value: ECMAScript's restricted production ends the statement at the line break (return⏎x is `return; x`)")
 	}
